@@ -1,7 +1,8 @@
 (* Properties/C07.v — union stacks rows by column name; distinct removes duplicates. *)
 From Coq Require Import List String NArith ZArith Bool.
 From PDT Require Import Base.StableSort Model.Dtype Model.Value Model.Ops Model.Expr Model.RefSem
-     Proofs.JoinUnionLemmas.
+     Model.SqlCompile Proofs.JoinUnionLemmas Proofs.SqlCompileLemmas.
+From PDTGen Require Import Catalogue.
 Import ListNotations.
 Open Scope list_scope.
 
@@ -27,10 +28,30 @@ Theorem union_distinct_has_no_duplicates : forall seen vis rs i j ri rj,
 Proof. exact union_distinct_no_duplicates_proof. Qed.
 Print Assumptions union_distinct_has_no_duplicates.
 
+(* SQL: the transcription of the Union branch of SqlImpl.compile_ast - both operands compiled to complete
+   SELECTs, the right select list put into the order of the left column NAMES (looked up among the right
+   operand's visible columns), UNION [ALL], a fresh query over the compound selecting the left operand's
+   columns - denotes the reference table, for all data: operands are any pipelines of the flat fragment
+   (filters, mutates, window functions, summarize, arrange / slice, further unions), and any verb of the
+   fragment may follow.  L3 compares the select lists of both operands (as column identities) with the
+   ones the real compile_ast hands to compile_query. *)
+Theorem sql_union_is_the_reference : forall d l r distinct c,
+  compile (Union l r distinct) = Some c -> flat_ok (Union l r distinct) = true ->
+  sem_query d c = export_ref (do_union (sem_ref d l) (sem_ref d r) distinct).
+Proof. intros d l r distinct c C F. apply (sql_compile_correct_proof d (Union l r distinct) c C F). Qed.
+Print Assumptions sql_union_is_the_reference.
+
 (* permuted column order on the right, nulls compare equal for distinct *)
 Example union_example :
   let d := [("l"%string, [[VInt 1; VNull]; [VInt 1; VNull]]); ("r"%string, [[VNull; VInt 1]; [VInt 7; VInt 2]])] in
   let a := Union (Source "l" [("a"%string, 1%N); ("b"%string, 2%N)])
                  (Source "r" [("b"%string, 3%N); ("a"%string, 4%N)]) true in
-  f_rows (export_ref (sem_ref d a)) = [[VInt 1; VNull]; [VInt 2; VInt 7]].
-Proof. vm_compute. reflexivity. Qed.
+  f_rows (export_ref (sem_ref d a)) = [[VInt 1; VNull]; [VInt 2; VInt 7]]
+  /\ flat_ok a = true
+  /\ flat_ok (Summarize (Union (Filter (Source "l" [("a"%string, 1%N); ("b"%string, 2%N)])
+                                       [EFn Op_is_not_null [ECol 1%N] false [] []])
+                               (Union (Source "r" [("b"%string, 3%N); ("a"%string, 4%N)])
+                                      (Source "l" [("a"%string, 5%N); ("b"%string, 6%N)]) false) true)
+                        [("n"%string, 9%N, EFn Op_count_star [] false [] [])]) = true
+  /\ option_map (fun c => f_rows (sem_query d c)) (compile a) = Some [[VInt 1; VNull]; [VInt 2; VInt 7]].
+Proof. vm_compute. repeat split; reflexivity. Qed.
